@@ -35,6 +35,20 @@ class E2(Exception):
     pass
 
 
+class FE(Exception):
+    """an exception whose instances are *falsy* (`not exc` is True): code must test `is None`, not truth"""
+
+    def __bool__(self):
+        return False
+
+    def __len__(self):
+        return 0
+
+
+class HookErr(Exception):
+    """raised by a user's `firstiter` asyncgen hook in the hook stream"""
+
+
 class Log(list):
     """body log + the exception objects that entered `except` clauses (for identity checks)"""
 
@@ -56,7 +70,7 @@ def mkexc(tok, OOBData=None):
     return {
         "GE": GeneratorExit, "CE": asyncio.CancelledError, "E1": E1, "E1s": E1s, "E2": E2, "BE": BE,
         "RT": RuntimeError, "TE": TypeError, "SAI": StopAsyncIteration, "SI": StopIteration,
-        "KI": KeyboardInterrupt, "SE": SystemExit,
+        "KI": KeyboardInterrupt, "SE": SystemExit, "FE": FE,
     }[tok]()
 
 
@@ -89,13 +103,15 @@ def pv(v):
 
 
 EXC_CLASS = {"GE": GeneratorExit, "CE": asyncio.CancelledError, "E1": E1, "E1s": E1s, "E2": E2, "BE": BE,
-             "RT": RuntimeError, "TE": TypeError, "KI": KeyboardInterrupt, "SE": SystemExit}
+             "RT": RuntimeError, "TE": TypeError, "KI": KeyboardInterrupt, "SE": SystemExit, "FE": FE}
 
 # forms of athrow(): how (type, value, traceback) are passed.  "+t" appended = with a traceback object.
 #   i   athrow(instance)                     c   athrow(Class)
 #   ci  athrow(Class, instance of Class)     bi  athrow(Base, instance of a subclass)
 #   cv  athrow(Class, 7)                     cn  athrow(Class, None)
-ATHROW_FORMS = ["ci", "bi", "cv", "cn", "ci+t", "bi+t", "cv+t", "cn+t", "i", "c"]
+#   c0 / cf / ce   athrow(Class, 0) / athrow(Class, 0.0) / athrow(Class, ""): falsy values are values, not "no value"
+ATHROW_FORMS = ["ci", "bi", "cv", "cn", "ci+t", "bi+t", "cv+t", "cn+t", "i", "c", "c0", "cf", "ce", "c0+t"]
+FALSY_VALUES = {"c0": 0, "cf": 0.0, "ce": ""}
 
 
 def athrow_effective(op):
@@ -132,6 +148,9 @@ def athrow_args(op, tb=None):
         return (base, inst) + tbarg, inst, cls, ("p", 3)
     if form == "cv":
         return (cls, 7) + tbarg, None, cls, (7,)
+    if form in FALSY_VALUES:
+        v = FALSY_VALUES[form]
+        return (cls, v) + tbarg, None, cls, (v,)
     return (cls, None) + tbarg, None, cls, ()
 
 
@@ -373,7 +392,7 @@ def compile_body(prog, mode, extra=None):
     key = (repr(prog), mode)
     fn = _cache.get(key)
     if fn is None:
-        ns = {"asyncio": asyncio, "E1": E1, "E1s": E1s, "E2": E2, "cv": cv, "canon_exc": canon_exc, "KEEP": KEEP}
+        ns = {"asyncio": asyncio, "E1": E1, "E1s": E1s, "E2": E2, "FE": FE, "cv": cv, "canon_exc": canon_exc, "KEEP": KEEP}
         ns.update(extra or {})
         oob_cls = ns.get("OOBData")
         ns["mkexc"] = lambda t: mkexc(t, oob_cls)
